@@ -1,5 +1,5 @@
 (* Properties/C07.v — CTEs, derived tables and subqueries equal staged evaluation
-   (claims only; proofs in Proofs/C07Mono.v, C07Blind.v, C07Lemmas.v, examples in C07Examples.v;
+   (claims only; proofs in Proofs/C07Mono.v, C07Blind.v, C07Up.v, C07Lemmas.v, examples in C07Examples.v;
     specification in Spec/StageSpec.v).
 
    Reading guide.
@@ -19,13 +19,16 @@
      BETWEEN, IS, arithmetic, CASE, aggregates; no subquery, no function call, no `<-`);
      GROUP BY / DISTINCT / ORDER BY / LIMIT / OFFSET are unrestricted.  [avoids names q] = q is a
      SELECT without its own WITH (or a UNION of such) whose tables, joins included, do not start with
-     one of [names] and are not derived tables.  [stage_head q = Some k] = q is a [blind_select]
+     one of [names] and are not derived tables, and whose row-scoped subqueries (at any depth) have
+     no table path that reaches one of [names] through `<-` ([hides]: a subquery sees the CTE thunks
+     of the enclosing query behind `<-`).  [no_thunks ctx] = the query running in ctx registered no
+     CTE and neither did the queries enclosing it.  [stage_head q = Some k] = q is a [blind_select]
      SELECT without WITH over one table path starting with k.  [chain_ok w] = distinct names, every
      body a stage whose table is an earlier CTE or a document key that is no CTE name. *)
 From Coq Require Import Floats Permutation.
 From GenqlV Require Import Base.Prelude Base.Value Model.Ast Model.Eval Model.Exec.
 From GenqlV Require Import Spec.StageSpec.
-From GenqlV Require Import Proofs.C07Mono Proofs.C07Blind Proofs.C07Lemmas Proofs.C07Examples.
+From GenqlV Require Import Proofs.C07Mono Proofs.C07Blind Proofs.C07Up Proofs.C07Lemmas Proofs.C07Examples.
 From GenqlV Require Import Run.EngineRun.
 Local Open Scope list_scope.
 
@@ -54,7 +57,8 @@ Proof. exact api_run_mono. Qed.
 Print Assumptions C07_api_fuel_monotone.
 
 (* the interpreter sees its context only through the document, the CTE lookup function and the
-   in-progress test *)
+   in-progress test — of the query itself and (new: [ctx_equiv] now also relates the stacks [c_up])
+   of the queries enclosing it, up to enclosing queries that registered no CTE at all *)
 Theorem C07_context_congruence : forall call join n a b j,
   ctx_equiv a b -> exec call join n a j = exec call join n b j.
 Proof. exact exec_ctx_equiv. Qed.
@@ -224,14 +228,19 @@ Print Assumptions C07_derived_is_staged_evals.
 (* ================================================================ *)
 
 (* a select-list subquery contributes exactly what it returns standalone on the scope copy of the
-   current row; the enclosing query running with fuel n+1 gives it fuel n *)
+   current row; the enclosing query running with fuel n+1 gives it fuel n.
+   [no_thunks ctx] is a new hypothesis (here and in the IN / EXISTS claims below): when the enclosing
+   query, or a query around it, registered CTEs, the subquery is not a standalone run on the row —
+   behind `<-` it finds the thunks (C07_up_* below) *)
 Theorem C07_subquery_standalone : forall call join n ctx s filtered cur q,
+  no_thunks ctx ->
   eval (mk_env (exec call join n) call join ctx s filtered) cur (ESub q) =
   let! v := exec call join n (plain (scope cur (VObj (c_data ctx)))) (JStmt q) in Ok (RVal v).
 Proof. exact subquery_standalone. Qed.
 Print Assumptions C07_subquery_standalone.
 
 Theorem C07_subquery_standalone_evals : forall call join ctx s filtered cur q r,
+  no_thunks ctx ->
   evals call join (plain (scope cur (VObj (c_data ctx)))) (JStmt q) r ->
   exists N, forall n, N <= n ->
     eval (mk_env (exec call join n) call join ctx s filtered) cur (ESub q) = (let! v := r in Ok (RVal v)).
@@ -255,6 +264,7 @@ Print Assumptions C07_subquery_root_from.
 (* x [NOT] IN (subquery), both polarities: membership among the single columns of the standalone
    result *)
 Theorem C07_in_subquery : forall call join n ctx s filtered cur neg a q l lv rs cols,
+  no_thunks ctx ->
   eval (mk_env (exec call join n) call join ctx s filtered) (scope cur (VObj (c_data ctx))) a = Ok l ->
   value_of (scope cur (VObj (c_data ctx))) l = Ok lv ->
   exec call join n (plain (scope cur (VObj (c_data ctx)))) (JStmt q) = Ok (VArr rs) ->
@@ -280,6 +290,7 @@ Print Assumptions C07_exists_expr.
 (* EXISTS (SELECT * FROM nested WHERE p) on the scoped outer row [cur]: the element-wise reading
    of the specification, value and failure alike; p is evaluated on  obj_merge element cur *)
 Theorem C07_exists : forall call join n ctx s filtered cur s' k rest elems,
+  no_thunks ctx ->
   exists_shape s' -> s_items s' = [IStar] -> s_from s' = FTable (k :: rest) "" ->
   reader (k :: rest) (VObj cur) = Ok (VArr elems) ->
   e_exists (mk_env (exec call join (S n)) call join ctx s filtered) (SSelect s') cur =
@@ -291,6 +302,7 @@ Print Assumptions C07_exists.
    element-wise one.  Missing: the converse, which is false as stated when the projection of a kept
    row fails (then EXISTS is an error although the element-wise reading has a value). *)
 Theorem C07_exists_select_list_partial : forall call join n ctx s filtered cur s' k rest elems b,
+  no_thunks ctx ->
   exists_shape s' -> s_from s' = FTable (k :: rest) "" ->
   reader (k :: rest) (VObj cur) = Ok (VArr elems) ->
   e_exists (mk_env (exec call join (S n)) call join ctx s filtered) (SSelect s') cur = Ok b ->
@@ -372,21 +384,23 @@ Proof.
 Qed.
 Print Assumptions C07_fuel_enough_partial.
 
-(* The premise [blind_select] (here: no `<-` in the outer query) cannot be dropped IN THE MODEL: an
-   outer query that navigates back to the CTE name through `<-` sees no such key in the composed
-   run and the materialised rows in the staged run.  (The real engine keeps the CTE thunk in the
-   query's data map, so there the composed run agrees with the staged one — see the report.) *)
+(* The premise [blind_select] (here: no `<-` in the outer query) cannot be dropped: an outer query
+   whose subquery selects the back reference `<-` as a VALUE gets the document without the CTE in
+   the composed run (a thunk is not part of the value) and with the materialised rows in the staged
+   run — in the model and in the real engine alike.  (The former witness, a subquery reading
+   FROM `<-`.c, is no counterexample any more: the model now finds the thunk of c behind `<-`, as the
+   real engine does, and composed = staged there: C07_ex_backref_to_cte_agrees.) *)
 Theorem C07_cte_is_staged_without_blind_refuted :
   exists d c inner s rest alias n,
     s_with s = [(c, inner)] /\ s_from s = FTable (c :: rest) alias /\ avoids [c] inner = true /\
     (forall v, exec no_call no_join n (plain d) (JStmt inner) = Ok v -> exists rows, v = VArr rows) /\
     exec no_call no_join (S n) (plain d) (JStmt (SSelect s)) <> stage no_call no_join n c inner s d.
 Proof.
-  exists ex_d, "c"%string, bk_inner, bk_outer, [], ""%string, 3%nat.
-  split; [reflexivity|]. split; [reflexivity|]. split; [exact (proj1 backref_to_cte_differs)|].
+  exists ex_d, "c"%string, bk_inner, bv_outer, [], ""%string, 3%nat.
+  split; [reflexivity|]. split; [reflexivity|]. split; [exact (proj1 backref_value_differs)|].
   split.
   - intros v Hv. vm_compute in Hv. inversion Hv. eauto.
-  - destruct backref_to_cte_differs as (_ & _ & -> & ->). discriminate.
+  - destruct backref_value_differs as (_ & _ & -> & ->). vm_compute. discriminate.
 Qed.
 Print Assumptions C07_cte_is_staged_without_blind_refuted.
 
@@ -503,3 +517,140 @@ Proof.
   vm_compute. reflexivity.
 Qed.
 
+
+(* ================================================================== *)
+(* the CTEs of an enclosing query behind `<-`                          *)
+(* ================================================================== *)
+(* A row-scoped subquery runs in [sub_ctx ctx cur]: its data is the row [cur] (whose `<-` key is the
+   enclosing query's data map), its stack of enclosing queries starts with the frame of [ctx] —
+   document, CTE thunks, in-progress marks.  [mkc d ctes busy up] is the context with these four
+   fields. *)
+
+(* inside a subquery, FROM `<-`.c... yields exactly the source rows the enclosing query gets from
+   FROM c..., for every CTE c the enclosing query registered — value, error and recursion guard alike *)
+Theorem C07_up_cte_is_cte : forall join rec ctx cur c rest alias body,
+  cte_lookup c (c_ctes ctx) = Some body ->
+  build_from rec join (sub_ctx ctx cur) (FTable ("<-"%string :: c :: rest) alias) =
+  build_from rec join ctx (FTable (c :: rest) alias).
+Proof. exact up_cte_is_cte. Qed.
+Print Assumptions C07_up_cte_is_cte.
+
+(* ... namely the rows of the thunk's body run by the enclosing query, when c is not in progress *)
+Theorem C07_up_cte_rows : forall join rec ctx cur c rest alias body rows,
+  cte_lookup c (c_ctes ctx) = Some body -> existsb (String.eqb c) (c_busy ctx) = false ->
+  rec (mkc (c_data ctx) (c_ctes ctx) (c :: c_busy ctx) (c_up ctx)) (JStmt body) = Ok rows ->
+  build_from rec join (sub_ctx ctx cur) (FTable ("<-"%string :: c :: rest) alias) =
+  let! v := reader rest rows in let! arr := as_array v in Ok (Some (process_alias arr alias)).
+Proof. exact up_cte_rows. Qed.
+Print Assumptions C07_up_cte_rows.
+
+(* a CTE body whose subquery reads the CTE itself through `<-`: an error ("recursive reference") *)
+Theorem C07_up_self_reference_is_error : forall join rec ctx cur c rest alias body,
+  cte_lookup c (c_ctes ctx) = Some body -> existsb (String.eqb c) (c_busy ctx) = true ->
+  build_from rec join (sub_ctx ctx cur) (FTable ("<-"%string :: c :: rest) alias) = Err.
+Proof. exact up_self_reference_is_error. Qed.
+Print Assumptions C07_up_self_reference_is_error.
+
+(* one more `<-` in front per nesting level: a path that the enclosing query [m] resolves to a thunk
+   further up ... *)
+Theorem C07_up_path_shift : forall join rec m cur k rest alias h,
+  cte_lookup k (c_ctes m) = None -> up_read m (k :: rest) = Some h ->
+  build_from rec join (sub_ctx m cur) (FTable ("<-"%string :: k :: rest) alias) =
+  build_from rec join m (FTable (k :: rest) alias).
+Proof. exact up_path_shift. Qed.
+Print Assumptions C07_up_path_shift.
+
+(* ... so `<-`.`<-`.c in the subquery of a subquery is the CTE c of the outermost query *)
+Theorem C07_up_cte_two_levels : forall join rec ctx cur1 cur2 c rest alias body,
+  cte_lookup c (c_ctes ctx) = Some body ->
+  build_from rec join (sub_ctx (sub_ctx ctx cur1) cur2)
+             (FTable ("<-"%string :: "<-"%string :: c :: rest) alias) =
+  build_from rec join ctx (FTable (c :: rest) alias).
+Proof. exact up_cte_two_levels. Qed.
+Print Assumptions C07_up_cte_two_levels.
+
+(* a name that is no CTE of the enclosing query is read in its document, as before *)
+Theorem C07_up_doc_is_doc : forall join rec ctx cur k rest alias,
+  k <> "<-"%string -> cte_lookup k (c_ctes ctx) = None ->
+  build_from rec join (sub_ctx ctx (scope cur (VObj (c_data ctx))))
+             (FTable ("<-"%string :: k :: rest) alias) =
+  build_from rec join ctx (FTable (k :: rest) alias).
+Proof. exact up_doc_is_doc. Qed.
+Print Assumptions C07_up_doc_is_doc.
+
+(* conservativity: enclosing queries that registered no CTE are invisible — the context behaves as
+   the same context without enclosing queries, i.e. as in the model before `<-` could see thunks *)
+Theorem C07_up_conservative : forall call join n d ctes busy up j,
+  blank_up up -> exec call join n (mkc d ctes busy up) j = exec call join n (mkc d ctes busy []) j.
+Proof. exact exec_blank_up. Qed.
+Print Assumptions C07_up_conservative.
+
+(* ... in particular a subquery of a query in whose scope no thunk is, is a standalone run *)
+Theorem C07_up_sub_plain : forall call join n ctx cur j,
+  no_thunks ctx -> exec call join n (sub_ctx ctx cur) j = exec call join n (plain cur) j.
+Proof. exact exec_sub_plain. Qed.
+Print Assumptions C07_up_sub_plain.
+
+(* a statement nested in a subquery of the query that registered [ctes] (d, ctes, busy: that query;
+   [names] covers the names of ctes), none of whose table paths reaches a name through `<-`
+   ([hides]), evaluates to the same outcome whether or not the CTEs are registered *)
+Theorem C07_up_hidden : forall call join names d ctes busy,
+  (forall k, mem_str k names = false -> cte_lookup k ctes = None) ->
+  forall n a b j,
+    ctx_hid names d ctes busy a b -> job_hides names j ->
+    exec call join n a j = exec call join n b j.
+Proof. exact exec_hid. Qed.
+Print Assumptions C07_up_hidden.
+
+(* [C07_cte_invisible] for a query that is itself a subquery (any stack [up]) *)
+Theorem C07_cte_invisible_up : forall call join names d ctes busy,
+  (forall k, mem_str k names = false -> cte_lookup k ctes = None) ->
+  forall q n up,
+    avoids names q = true ->
+    exec call join n (mkc d ctes busy up) (JStmt q) = exec call join n (mkc d [] [] up) (JStmt q).
+Proof. exact avoids_invisible_up. Qed.
+Print Assumptions C07_cte_invisible_up.
+
+(* ---- non-vacuity: the real engine returns the same rows for the SQL in Proofs/C07Examples.v ---- *)
+
+Example C07_ex_backref_to_cte_agrees :
+  blind_select bk_outer = false /\
+  stage no_call no_join 3 "c" bk_inner bk_outer ex_d =
+  exec no_call no_join 4 (plain ex_d) (JStmt (SSelect bk_outer)).
+Proof. destruct backref_to_cte_agrees as (_ & H1 & _ & H2). split; assumption. Qed.
+
+Example C07_ex_up_select_list_subquery :
+  run_model (false, ex_doc, up_e1) =
+  Ok [VObj [("id"%string, VNum 1%float); ("x"%string, ids [1%float; 3%float])];
+      VObj [("id"%string, VNum 3%float); ("x"%string, ids [1%float; 3%float])]].
+Proof. exact up_select_list_subquery. Qed.
+
+Example C07_ex_up_exists :
+  run_model (false, ex_doc, up_e2) =
+  Ok [VObj [("id"%string, VNum 1%float)]; VObj [("id"%string, VNum 3%float)]].
+Proof. exact up_exists. Qed.
+
+Example C07_ex_up_self_reference_error : run_model (false, ex_doc, up_e3) = Err.
+Proof. exact up_self_reference_error. Qed.
+
+Example C07_ex_up_two_levels :
+  run_model (false, ex_doc, up_e4) =
+  Ok [VObj [("id"%string, VNum 1%float); ("x"%string, VObj [("y"%string, ids [1%float; 3%float])])]].
+Proof. exact up_two_levels. Qed.
+
+Example C07_ex_up_thunk_shadows_table :
+  run_model (false, ex_doc, up_e6) =
+  Ok [VObj [("id"%string, VNull); ("x"%string, VArr [VObj [("id"%string, VNull)]; VObj [("id"%string, VNull)]])];
+      VObj [("id"%string, VNull); ("x"%string, VArr [VObj [("id"%string, VNull)]; VObj [("id"%string, VNull)]])]].
+Proof. exact up_thunk_shadows_table. Qed.
+
+Example C07_ex_up_in_subquery :
+  run_model (false, ex_doc, up_e14) = Ok [VObj [("id"%string, VNum 3%float)]].
+Proof. exact up_in_subquery. Qed.
+
+Example C07_ex_up_cycle_error : run_model (false, ex_doc, up_e16) = Err.
+Proof. exact up_cycle_error. Qed.
+
+Example C07_ex_avoids_with_subquery :
+  avoids ["c"%string] (hid_inner "vals") = true /\ avoids ["c"%string] (hid_inner "c") = false.
+Proof. exact avoids_with_subquery. Qed.
